@@ -127,6 +127,19 @@ func dropLoopClause(ct *Contract, pos string) *Contract {
 	return &nc
 }
 
+// verifyFuncBare: the zero-annotation sweep of a function, ignoring its own contract (used when that contract no longer
+// binds to the code).
+func (e *Engine) verifyFuncBare(fi *FuncInfo) *FuncReport {
+	save := e.contracts[fi.Key]
+	delete(e.contracts, fi.Key)
+	defer func() {
+		if save != nil {
+			e.contracts[fi.Key] = save
+		}
+	}()
+	return e.verifyFunc(fi, true)
+}
+
 func (e *Engine) verifyFunc(fi *FuncInfo, sweep bool) *FuncReport {
 	c := e.newFnCtx(fi, sweep)
 	rep := &FuncReport{Key: fi.Key, Ctx: c, HasContract: c.contract != nil}
@@ -257,6 +270,9 @@ func cmdFunc(args []string) {
 		}
 		for _, fi := range fis {
 			rep := eng.verifyFunc(fi, *sweep)
+			if os.Getenv("GVC_BARE") != "" {
+				rep = eng.verifyFuncBare(fi)
+			}
 			fmt.Printf("== %s\n", shortFuncKey(fi.Key))
 			if rep.Err != "" {
 				fmt.Println("   ", rep.Err)
